@@ -1,5 +1,5 @@
 SPECIFICATION Spec
 CONSTANTS
   Scale = 2
-  TMax = 7
+  TMax = 8
 INVARIANT Emit
